@@ -286,6 +286,8 @@ class CFG:
                         continue
                 if isinstance(it.context_expr, ast.Call) and U(it.context_expr.func) in ('asyncio.timeout', 'asyncio.timeout_at'):
                     continue
+                if isinstance(it.context_expr, ast.Call) and U(it.context_expr.func).split('.')[-1] == 'TaskGroup':
+                    exit_raises.add(ExcT('ExceptionGroup', False))  # the errors of the child tasks, re-raised as a group when the block is left
                 lib_suspending = True
             if lib_suspending:
                 exit_raises.add(CANCEL)
